@@ -174,6 +174,12 @@ fn line_text(rng: &mut crate::rng::Rng) -> String {
     let n = rng.below(6);
     let mut s = String::new();
     for _ in 0..n {
+        if rng.chance(1, 12) {
+            // a long run of one blank, then a short tail (or nothing)
+            s.push_str(&gen::blank_run(rng));
+            s.push_str(*rng.pick(&["", "}", "x", "ab", "é", "foo", "x y", "abcdefg", " ", "\n"]));
+            continue;
+        }
         s.push_str(match rng.below(10) {
             9 => if rng.chance(1, 2) { *rng.pick(gen::ASCII_EDGE) } else { *rng.pick(gen::WS) },
             0 => "\n",
@@ -191,7 +197,7 @@ fn line_text(rng: &mut crate::rng::Rng) -> String {
 }
 
 pub fn c19(ctx: &mut Ctx) {
-    let prefixes: &[&str] = &["", "  ", "\t", "> ", "//", "  \u{a0}", "x\n", " - ", "👉 ", "\r"];
+    let prefixes: &[&str] = &["", "  ", "\t", "> ", "//", "// ", "#\t", "  \u{a0}", "x\n", " - ", "👉 ", "\r", "        "];
     let mut run = |ctx: &mut Ctx, s: &str, p: &str| {
         let (op, real) = op_indent(s, p);
         ctx.case(op, format!("indent({}, {})", show(s), show(p)));
@@ -275,6 +281,9 @@ pub fn margin_text(rng: &mut crate::rng::Rng) -> String {
     for i in 0..n {
         if i > 0 {
             s.push_str(match rng.below(10) { 0 => "\r\n", 1 => "\r\r\n", _ => "\n" });
+        }
+        if rng.chance(1, 12) {
+            s.push_str(&gen::blank_run(rng));
         }
         for _ in 0..rng.below(4) {
             // blanks that share leading UTF-8 bytes with each other (U+2002/2003/2005: E2 80 xx;
